@@ -829,7 +829,8 @@ fn class_matches(got: &str, exp: &str) -> bool {
 
 pub fn run_c13(ctx: &Ctx) -> i32 {
     let depth = ctx.opt_usize("depth").unwrap_or(ctx.tier.pick(3, 4));
-    let gaps: Vec<i64> = vec![100, 1000, 4900, 5000, 5100, 100_000];
+    // 2^32 us + 1 s and 2^32 ms + 1 s: gaps after which an elapsed time narrowed to 32 bits looks short again
+    let gaps: Vec<i64> = vec![100, 1000, 4900, 5000, 5100, 100_000, 4_295_968, 4_294_968_296];
     let mut alpha: Vec<Step> = vec![];
     for ans in [Ans::TrackA, Ans::TrackB, Ans::Silent, Ans::Other] {
         for phc_readable in [true, false] {
